@@ -27,6 +27,8 @@ BATCH_SIZE = {'quick': 1, 'thorough': 4}
 REQUIRED_COUNTERS = ['marker_files_checked', 'pair_gene_decisions',
                      'holm_running_max_decides',
                      'gene_list_approx_floors_off_cases',
+                     'references_with_an_unexpressed_gene_block',
+                     'marker_tables_over_200_entries_at_tiny_budget',
                      'recorded_markers_judged', 'strict_markers_expected',
                      'pmask_files_checked', 'rename_pairs_compared',
                      'differential_runs_compared',
@@ -63,18 +65,31 @@ def gen_cases(tier, seed):
         if i % 5 == 1:
             # gene list + approximate penetrance + floors switched off
             c['force'] = 'list-approx-nofloors'
+        if i % 4 == 2:
+            c['dead_block'] = True
+        if i % 6 == 5:
+            # many entries + a budget of a few bytes: the gene-major tables
+            # are built in several windows
+            c['big'] = True
         cases.append(c)
     return cases
 
 
-def make_cells(rng, dup=False):
+def make_cells(rng, dup=False, dead_block=False, big=False):
     k = int(rng.integers(3, 8))
     n_genes = int(rng.integers(5, 40))
+    if big:
+        # enough (pair, gene) entries to cross the enforced minimum window
+        # of the on-disk transposition several times
+        k = int(rng.integers(12, 16))
+        n_genes = int(rng.integers(40, 70))
     names = gen._pick_names(rng, k, gen.NODE_NAME_POOL)
     sizes = []
     for i in range(k):
         r = rng.random()
-        if r < 0.15:
+        if big:
+            sizes.append(int(rng.integers(8, 16)))
+        elif r < 0.15:
             sizes.append(1)
         elif r < 0.3:
             sizes.append(2)
@@ -107,6 +122,11 @@ def make_cells(rng, dup=False):
     order = rng.permutation(len(labels))
     X = np.array(X)[order]
     labels = [labels[i] for i in order]
+    if dead_block:
+        # a contiguous run of genes never expressed anywhere: whole blocks
+        # of the gene-major tables stay empty
+        a = int(rng.integers(0, max(1, n_genes // 2)))
+        X[:, a:a + max(2, n_genes // 3)] = 0.0
     if dup:
         # exact copies of a few columns: tied raw p-values in every pair
         src = rng.choice(n_genes, size=min(n_genes, int(rng.integers(2, 5))),
@@ -399,7 +419,11 @@ def run_case(spec, work):
     ctx = Ctx()
     tmp = work / 'tmp'
     tmp.mkdir()
-    names, X, labels, n_genes = make_cells(rng, dup=bool(spec.get('tune_p')))
+    names, X, labels, n_genes = make_cells(
+        rng, dup=bool(spec.get('tune_p')),
+        dead_block=bool(spec.get('dead_block')), big=bool(spec.get('big')))
+    if spec.get('dead_block'):
+        ctx.bump('references_with_an_unexpressed_gene_block')
     genes = gen.gene_names(rng, n_genes)
     ref = work / 'ref.h5ad'
     write_ref(ref, X, labels, genes, rng)
@@ -432,8 +456,12 @@ def run_case(spec, work):
         rng.choice([0.2, 1.0]))
     exact = bool(rng.random() < 0.4)
     n_valid = int(rng.integers(1, min(10, n_genes) + 1))
+    if spec.get('big'):
+        n_valid = 40
+        exact = False
+        th['p_th'] = 0.05
     gene_list = None
-    if rng.random() < 0.35:
+    if rng.random() < 0.35 and not spec.get('big'):
         gene_list = [g for g in genes if rng.random() < 0.6] or [genes[0]]
     if spec.get('force') == 'list-approx-nofloors':
         exact = False
@@ -475,8 +503,10 @@ def run_case(spec, work):
         if best is not None and best[0] > 1.0 + 1e-4:
             th['p_th'] = float(np.sqrt(best[1] * best[2]))
             ctx.bump('cases_with_tuned_p_threshold')
-    n_proc = int(rng.integers(1, 4))
-    max_gb = float(rng.choice([1e-6, 0.01, 1.0]))
+    n_proc = int(rng.integers(1, 5))
+    max_gb = float(rng.choice([1e-9, 1e-6, 0.01, 1.0]))
+    if spec.get('big'):
+        max_gb = float(rng.choice([1e-9, 1e-8]))
     what = (f'leaves={len(names)} genes={n_genes} th={th} exact={exact} '
             f'n_valid={n_valid} gene_list={gene_list is not None} '
             f'n_processors={n_proc} max_gb={max_gb}')
@@ -502,13 +532,18 @@ def run_case(spec, work):
         if d['gene_names'] != genes:
             ctx.V('C11:direct:gene-names', 'gene names / order differ from '
                   'the statistics file')
+        nnz = int(len(d['sparse_by_pair/up_gene_idx']))
+        if max_gb <= 1e-8 and nnz > 200:
+            ctx.bump('marker_tables_over_200_entries_at_tiny_budget')
         if check_structure(ctx, 'direct', d, n_genes):
             n_rec = judge(ctx, 'direct', d, names, genes, orc, th,
                           gene_list, exact)
         # differential: worker count and budget must not matter
         out2 = work / 'refm2.h5'
-        direct(out2, int(rng.choice([x for x in (1, 2, 3) if x != n_proc])),
-               float(rng.choice([1e-6, 1.0])))
+        direct(out2,
+               int(rng.choice([x for x in (1, 2, 3, 4) if x != n_proc])),
+               float(rng.choice([1e-9, 1e-6, 1.0])) if not spec.get('big')
+               else 1.0)
         ctx.bump('differential_runs_compared')
         if not same_markers(d, read_marker_file(out2)):
             ctx.V('C11:direct:depends-on-workers-or-budget', what)
@@ -570,8 +605,9 @@ def run_case(spec, work):
                            gene_list, exact=False)
         outm2 = work / 'refm_mask2.h5'
         from_mask(outm2,
-                  int(rng.choice([x for x in (1, 2, 3) if x != n_proc])),
-                  float(rng.choice([1e-6, 1.0])))
+                  int(rng.choice([x for x in (1, 2, 3, 4) if x != n_proc])),
+                  float(rng.choice([1e-9, 1e-6, 1.0])) if not spec.get('big')
+                  else 1.0)
         ctx.bump('differential_runs_compared')
         if not same_markers(dm, read_marker_file(outm2)):
             ctx.V('C11:pmask:depends-on-workers-or-budget', what)
